@@ -67,6 +67,7 @@ class Phase:
         self.managers = []
         self.records = []
         self.mp_orders = []
+        self.auto_budget = None
 
     def _query_cond(self, text):
         from parser.Wrappers import parseQuery
@@ -109,6 +110,13 @@ class Phase:
                         preprocessing_timeout=op.get("pre", 0),
                         inference_timeout=op.get("inf", 0),
                     )
+                elif op.get("inf") == "auto" and self.auto_budget is not None:
+                    # a per-query budget that every query of the batch, asked alone on a fresh
+                    # manager (preprocessing included), undercuts by a third in virtual time
+                    b = self.auto_budget(op)
+                    if b:
+                        kw = dict(inference_timeout=b)
+                        rec["auto_inf"] = b
                 simmp.SIMMP.state = simmp.MPState(op.get("latencies") or [])
                 t0 = S.now
                 try:
@@ -165,14 +173,16 @@ def _reference_answers(doc, S):
             if key in refs:
                 continue
             try:
+                t0 = S.now
                 m = InferenceManager(bb, cfg[0], "z3", cfg[1], cfg[2])
                 df = m.inference(parse_queries(text))
+                vt = S.now - t0
                 if len(df) != 1:
                     raise seams.HarnessError("reference call returned %d rows" % len(df))
                 r = _rows(df)[0]
                 if r["ito"] is not False or r["pto"] is not False:
                     raise seams.HarnessError("reference row flagged without budgets")
-                refs[key] = {"result": r["result"]}
+                refs[key] = {"result": r["result"], "vt": vt}
             except seams.HarnessError:
                 raise
             except Exception as e:  # noqa: BLE001
@@ -217,7 +227,10 @@ def judge_c13(doc, refs, cfgs, records):
                 out.append(_viol("C13:wrong_text", rec["op"], j, got=row["query"], want=text))
             flagged = row["ito"] is not False or row["pto"] is not False
             if flagged:
-                if not (stall and op.get("multi")):
+                if rec.get("auto_inf"):
+                    # every query of this batch finishes alone within 2/3 of the per-query budget
+                    out.append(_viol("C13:flagged_although_alone_within_budget", rec["op"], j, data=row, budget=rec["auto_inf"], multi=bool(op.get("multi"))))
+                elif not (stall and op.get("multi")):
                     out.append(_viol("C13:flagged_without_budget", rec["op"], j, data=row))
                 elif row["result"] is not False:
                     out.append(_viol("C13:flagged_true", rec["op"], j, data=row))
@@ -274,7 +287,7 @@ def judge_c14(doc, twin, records):
 # fault planning from the twin's observation counts
 # --------------------------------------------------------------------------------------
 def _budget_of(op):
-    vals = [float(op.get(k, 0)) for k in ("total", "pre", "inf")]
+    vals = [float(op.get(k, 0)) if isinstance(op.get(k, 0), (int, float)) else 0.0 for k in ("total", "pre", "inf")]
     vals = [v for v in vals if v > 0]
     return min(vals) if vals else 0.0
 
@@ -328,6 +341,8 @@ def plan_faults(doc, counts, rng):
             f.update(kind="jump", dur=dur)
         elif kind == "crash" and worker is not None:
             f.update(kind="crash")
+        elif kind == "error" and worker is not None:
+            f.update(kind="error")
         elif kind == "exit_stall" and worker is not None:
             f.update(kind="stall", site="exit", k=0, dur=round(rng.choice([0.5, 9.0, 10.5, 40.0]), 3))
         else:
@@ -397,6 +412,15 @@ def run_scenario(doc, full_trace=False):
                 faults = []
             doc = dict(doc, faults=faults)
         ph = Phase(doc, S, "run", True, faults)
+
+        def auto_budget(op):
+            cfg = cfgs[op["mgr"]]
+            vts = [refs["%s|%s|%s|%s" % (cfg[0], cfg[1], cfg[2], t)].get("vt") for _, t in op["batch"]]
+            if any(v is None for v in vts) or not vts:
+                return 0
+            return round(1.5 * max(vts) + 0.001, 6)
+
+        ph.auto_budget = auto_budget
         recs = ph.run()
         violations = judge_c13(doc, refs, cfgs, recs)
         n_ref_exc = sum(1 for r in refs.values() if "exc" in r)
@@ -585,7 +609,7 @@ def generate(prop, verif_seed, idx, tier="quick", cls=None):
     g = stream(sseed, "gen")
     if cls is None:
         if prop == "C13":
-            cls = g.choices(["seq", "dup", "par", "stall"], weights=[40, 12, 33, 15])[0]
+            cls = g.choices(["seq", "dup", "par", "stall", "budget"], weights=[34, 12, 29, 13, 12])[0]
         else:
             cls = g.choices(["nofault", "seq", "par", "z3", "natural"], weights=[10, 35, 20, 25, 10])[0]
     # ---- base -------------------------------------------------------------------------
@@ -604,6 +628,18 @@ def generate(prop, verif_seed, idx, tier="quick", cls=None):
         t = W.cond_text(W.gen_query(g, sig, conds))
         if t not in pool:
             pool.append(t)
+    if len(sig) >= 2 and g.random() < 0.15:
+        # two deep queries that agree down to nesting depth 6 and differ only below
+        # (catches caches keyed on abbreviated formula texts)
+        p_, b_ = g.sample(sig, 2)
+        leaf = g.choice(sig)
+        for neg in (False, True):
+            x = ("not", ("var", leaf)) if neg else ("var", leaf)
+            for _ in range(3):
+                x = ("and", ("var", b_), ("or", ("not", ("var", p_)), x))
+            t = W.cond_text((x, ("var", p_)))
+            if t not in pool:
+                pool.append(t)
     # ---- managers and calls -----------------------------------------------------------
     ops = []
     n_mgr = g.choice([1, 1, 2, 3])
@@ -625,6 +661,9 @@ def generate(prop, verif_seed, idx, tier="quick", cls=None):
         op = {"op": "inference", "mgr": mgr, "batch": [[k, t] for k, t in zip(keys, texts)], "multi": False}
         if cls in ("par", "stall"):
             op["multi"] = g.random() < 0.75
+        elif cls == "budget":
+            op["multi"] = g.random() < 0.25
+            op["inf"] = "auto"
         elif prop == "C14" and cls in ("z3", "natural", "nofault"):
             op["multi"] = g.random() < 0.2
         if op["multi"]:
@@ -644,6 +683,9 @@ def generate(prop, verif_seed, idx, tier="quick", cls=None):
     knobs = {"svc_scale": g.choice([0.1, 1.0, 1.0, 10.0])}
     doc = {"property": prop, "seed": sseed, "idx": idx, "class": cls, "knobs": knobs, "base": {"text": text, "src": src}, "ops": ops}
     if prop == "C13":
+        if cls == "budget":
+            # long virtual service times: the per-query budget is a few virtual seconds to minutes
+            doc["knobs"]["svc_scale"] = g.choice([100.0, 1000.0])
         if cls == "par":
             # reordering only: the sum of delays stays below the join window (10 virtual s)
             doc["fault_plan"] = {"n": g.choice([0, 1, 2, 3]), "kinds": ["slow"], "max_dur": 2.0}
@@ -658,7 +700,7 @@ def generate(prop, verif_seed, idx, tier="quick", cls=None):
             doc["faults"] = []
             doc["knobs"]["svc_scale"] = g.choice([30.0, 100.0, 300.0])
         elif cls == "par":
-            doc["fault_plan"] = {"n": g.choice([1, 2, 3]), "kinds": ["slow", "slow", "jump", "crash", "exit_stall"]}
+            doc["fault_plan"] = {"n": g.choice([1, 2, 3]), "kinds": ["slow", "slow", "jump", "crash", "error", "exit_stall"]}
         elif cls == "z3":
             doc["fault_plan"] = {"n": g.choice([1, 2, 3]), "kinds": ["unknown", "unknown", "slow", "jump"]}
         else:
